@@ -318,6 +318,9 @@ class Ctx:
             raise Infra("driver %s did not complete (rc=%s):\n%s" % (test, rc, out[-4000:]))
         if not done and mism:
             log("note: driver %s stopped early (rc=%s)" % (test, rc))
+            if all(r["sig"].startswith("note:") or self.match_known(r["sig"]) is not None for r in mism):
+                # only recorded findings / notes so far, and the driver died: nothing new was established
+                raise Infra("driver %s did not complete (rc=%s) and reported only known findings:\n%s" % (test, rc, out[-4000:]))
         mism_real = [r for r in mism if not r["sig"].startswith("note:")]
         if rc != 0 and not mism_real:
             raise Infra("driver %s failed without a mismatch record (rc=%s):\n%s" % (test, rc, out[-4000:]))
